@@ -991,8 +991,8 @@ dec_validate_time (munge_cred_t c)
      *    occasional EMUNGE_CRED_REWOUND in spite of NTP's best efforts.
      */
     skew = (conf->got_clock_skew) ? m->ttl : 1;
-    tmin = m->time0 - skew;
-    tmax = m->time0 + m->ttl;
+    tmin = (time_t) m->time0 - skew;
+    tmax = (time_t) m->time0 + m->ttl;
     /*
      *  Check the decode time against the allowable min & max.
      */
